@@ -10,7 +10,7 @@ oracle of the model.  Checkers: the text-level dedent specification and the theo
 (`renderA (adjust p atoks)`) evaluated by the driver on the real token stream vs the real output.
 """
 import ast, atexit, collections, dis, hashlib, importlib.util, inspect, json, linecache, os, random, shutil, sys
-import tempfile, textwrap, tokenize, warnings
+import tempfile, textwrap, tokenize, warnings, zipfile, importlib.abc
 import common
 from common import sexp, parse_sexp
 import c15_gen as G
@@ -60,6 +60,36 @@ class Scratch:
         spec.loader.exec_module(mod)
         return mod
 
+    def fresh_name(self, tag):
+        self.k += 1
+        return 'verif_c15_%s_%d_%d' % (tag, os.getpid(), self.k)
+
+    def load_as(self, kind, text, tag):
+        """import `text` as a new module from a file ('disk'), from a zip archive built here ('zip', zipimport)
+        or through a loader that offers the text only via get_source ('loader': no file exists at __file__)"""
+        if kind == 'disk':
+            return self.load(text, tag)
+        name = self.fresh_name(tag)
+        if kind == 'zip':
+            zpath = os.path.join(self.dir, name + '.zip')
+            with zipfile.ZipFile(zpath, 'w') as z:
+                z.writestr(name + '.py', text)
+            sys.path.insert(0, zpath)
+            try:
+                mod = importlib.import_module(name)
+            finally:
+                sys.path.remove(zpath)
+                sys.path_importer_cache.pop(zpath, None)
+            self.names.append((name, mod.__file__))
+            return mod
+        path = os.path.join(self.dir, 'no_such_dir', name + '.py')
+        spec = importlib.util.spec_from_file_location(name, path, loader=SourceOnlyLoader(path, text))
+        mod = importlib.util.module_from_spec(spec)
+        sys.modules[name] = mod
+        self.names.append((name, path))
+        spec.loader.exec_module(mod)
+        return mod
+
     def close(self):
         for name, path in self.names:
             sys.modules.pop(name, None)
@@ -68,6 +98,22 @@ class Scratch:
         if tempfile.tempdir == self.dir:
             tempfile.tempdir = self.prev_tempdir
         shutil.rmtree(self.dir, ignore_errors=True)
+
+
+class SourceOnlyLoader(importlib.abc.Loader):
+    """a loader whose module has no file on disk: the source is available through get_source only"""
+
+    def __init__(self, path, text):
+        self.path, self.text = path, text
+
+    def create_module(self, spec):
+        return None
+
+    def exec_module(self, module):
+        exec(compile(self.text, self.path, 'exec'), module.__dict__)
+
+    def get_source(self, fullname):
+        return self.text
 
 
 # --------------------------------------------------------------------------- definitions: direct oracle
@@ -446,6 +492,55 @@ class Checker:
             results.append(dc)
         return results
 
+    # ---- functions of modules that are not plain files, decorated across modules (functools.wraps)
+    def loader_group(self, dtext, utemplate, dkind, ukind, origin, only=None):
+        """D = decorator module, U = user module (its text needs D's module name).  Every registered object is
+        recovered and compared with the definition compiled for it: the node at co_firstlineno in the text of
+        the module whose code it runs (a functools.wraps wrapper runs D's code but carries U's __module__)."""
+        run = self.run
+        malt, parser, inspect_utils, errors = self.mods
+        try:
+            D = self.scratch.load_as(dkind, dtext, 'D' + dkind)
+            utext = utemplate.replace('@@D@@', D.__name__)
+            U = self.scratch.load_as(ukind, utext, 'U' + ukind)
+        except Exception as e:
+            self.gen_invalid += 1
+            self.run.notes.append('loader group did not import: %s %s' % (type(e).__name__, str(e)[:200]))
+            return
+        texts = {D.__file__: dtext, U.__file__: utext}
+        idxs = {k: def_index(ast.parse(v)) for k, v in texts.items()}
+        for k, f in enumerate(list(U.REG)):
+            if only is not None and k != only:
+                continue
+            fname = f.__code__.co_filename
+            first = f.__code__.co_firstlineno
+            wants = idxs.get(fname, {}).get(first, [])
+            if len(wants) != 1:
+                self.hist['loaders:no-unique-reference-node'] += 1
+                continue
+            is_wrapper = f.__module__ != (D.__name__ if fname == D.__file__ else U.__name__)
+            role = ('wraps-wrapper' if is_wrapper else 'plain') + ':code-in-' + (dkind if fname == D.__file__ else ukind) + \
+                   ':__module__-in-' + (ukind if f.__module__ == U.__name__ else dkind)
+            try:
+                block = inspect_utils.getimmediatesource(f)
+            except Exception as e:
+                block = None
+            kind, payload, source = recover(parser, errors, f, inspect_utils)
+            outcome = 'same' if (kind == 'node' and payload == ast.dump(wants[0])) else 'diff' if kind == 'node' else kind
+            run.case(('loaders', dkind, ukind, sha(dtext + utext), k), is_wrapper or dkind != 'disk' or ukind != 'disk')
+            self.hist['loaders:%s:%s' % (role, outcome)] += 1
+            if outcome != 'same':
+                self.class_hist['UNCLASSIFIED'] += 1
+                what = ('recovered tree differs from the definition compiled for the object (a definition of another '
+                        'module?)' if outcome == 'diff' else 'source recovery raised %s' % outcome)
+                run.fail(what, {'kind': 'loaders', 'dmod': dtext, 'umod_template': utemplate, 'dkind': dkind, 'ukind': ukind,
+                                'index': k, 'object': '%s (code %s:%d, __module__ in %s module)' % (
+                                    f.__name__, 'D' if fname == D.__file__ else 'U', first, 'U' if f.__module__ == U.__name__ else 'D'),
+                                'outcome': outcome, 'recovered_source': (source or payload)[:400],
+                                'expected': ast.unparse(wants[0])[:400]}, None)
+            elif block is not None:
+                self.dedent_correspondence(block, origin + ':block')
+
     # ---- lambdas
     def lambda_module(self, text, origin, only_tag=None):
         run = self.run
@@ -664,7 +759,10 @@ def load_json_dir(d):
 def run_case(chk, case, origin, focus=False):
     """Re-run one recorded case (module text) through the same machinery; `focus` restricts it to the
     recorded function / lambda."""
-    if case.get('kind') == 'lambda':
+    if case.get('kind') == 'loaders':
+        chk.loader_group(case['dmod'], case['umod_template'], case['dkind'], case['ukind'], origin,
+                         only=case.get('index') if focus else None)
+    elif case.get('kind') == 'lambda':
         chk.lambda_module(case['module'], origin, only_tag=case.get('tag') if focus else None)
     else:
         infos = case.get('infos') or []
@@ -676,6 +774,8 @@ def check(run, only_case=None):
     run.rule = ('seeded generator of source layouts written to temporary module files and imported. A definition case is one '
                 'function object (distinct by the text of its source block); non-trivial = the block is indented or uses a '
                 'layout feature (continuation, multi-line/raw/byte/f-string, comment, decorator, multi-line signature, nesting). '
+                'A loaders case is one function object of a decorator/user module pair imported from disk, a zip archive or a '
+                'source-only loader (non-trivial unless both are plain files and the object is no functools.wraps wrapper). '
                 'A lambda case is one lambda code object (distinct by module text + node); non-trivial = another lambda spans '
                 'its first line, or it spans several lines, or it contains a lambda. Synthetic dedent inputs (re-indented, '
                 'mixed tabs/spaces, truncated, prefixed) are derived from the same blocks for the correspondence only.')
@@ -750,6 +850,17 @@ def check(run, only_case=None):
         if len(chk.req) > 4000:
             chk.flush()
     chk.flush()
+    # -------- modules imported from zip archives / through source-only loaders, decorated across modules
+    ngroups = 6 if quick else 60
+    kinds = ['disk', 'zip', 'loader']
+    for m in range(ngroups):
+        rng = random.Random(run.rng.getrandbits(64))
+        g = G.LoaderGen(rng)
+        dtext, utemplate = g.dmod(), g.umod('@@D@@')
+        for dkind in kinds:
+            for ukind in kinds:
+                chk.loader_group(dtext, utemplate, dkind, ukind, 'gen-loaders:%d:%s:%s' % (m, dkind, ukind))
+        chk.flush()
     # -------- generated lambdas
     nl = 45 if quick else 520
     for m in range(nl):
@@ -792,7 +903,7 @@ def check(run, only_case=None):
     run.cov['failure_classes'] = dict(chk.class_hist)
     run.cov['correspondence_evaluations'] = dict(chk.ncorr)
     run.evaluations += sum(chk.ncorr.values())
-    run.cov['modules'] = {'definitions': nmods, 'lambdas': nl}
+    run.cov['modules'] = {'definitions': nmods, 'lambdas': nl, 'decorator/user module pairs': ngroups * 9}
     run.cov['search'] = ('direct oracle (ast.dump vs compiled node; converted lambda vs original) on %d generated definition modules '
                          'and %d lambda modules, + corpus + known-finding witnesses' % (nmods, nl))
 
@@ -801,12 +912,12 @@ def replay(run, path):
     with open(path) as f:
         rep = json.load(f)
     case = rep.get('case', rep)
-    if 'module' not in case:
+    if 'module' not in case and case.get('kind') != 'loaders':
         # an obligation-only replay file (no failing input was found): re-run the whole check
         print(json.dumps(rep, indent=1)[:3000])
         check(run)
         return run.finish()
-    print(json.dumps({k: v for k, v in case.items() if k != 'module'}, indent=1)[:3000])
+    print(json.dumps({k: v for k, v in case.items() if k not in ('module', 'dmod', 'umod_template')}, indent=1)[:3000])
     bad = check(run, only_case=case)
     for b in bad:
         print('REPRODUCED:', b['what'], '| class:', b['cls'])
